@@ -341,6 +341,54 @@ func c11Tamper(r *kernel.Run, s C11Spec, w *World, key *kernel.Key, ra *kernel.R
 		t2 := kernel.Set(kernel.Clone(tree), kernel.Path{"0", "nonrev_proof", "sacc"}, kernel.MustDecode(mustJSON(sa)))
 		deliver(fmt.Sprintf("substitute-accumulator:%d", i), "substitute-accumulator", kernel.Encode(t2))
 	}
+	// Byzantine holder: degenerate witness element u = 0 (or a multiple of n) paired with the newest
+	// accumulator through a prepared commitment: C_u becomes 0 and with it every power of C_u
+	for di, deg := range []*big.Int{big.NewInt(0), new(big.Int).Set(pk.N), new(big.Int).Lsh(pk.N, 1)} {
+		id := fmt.Sprintf("byzantine:degenerate-witness-u:%d", di)
+		if !wanted(s.OnlyFault, id) {
+			continue
+		}
+		r.Fault("byzantine-holder")
+		hc := creds[ci]
+		bc := &gabi.Credential{}
+		mustUnmarshal(mustJSON(hc.Cred), bc)
+		bc.Pk = pk
+		if bc.NonRevocationWitness.Verify(pk) != nil || bc.NonrevPrepareCache() != nil {
+			continue
+		}
+		// the accumulator must differ from the prepared one for the commitment to be refreshed: revoke somebody else
+		o, err := revocation.RandomWitness(key.Sk, ra.Accs[ra.Head()])
+		if err != nil {
+			panic(err)
+		}
+		if err := ra.Revoke(o.E); err != nil {
+			panic(err)
+		}
+		head := *ra.SAccs[ra.Head()]
+		if _, err := head.UnmarshalVerify(pk); err != nil {
+			panic(err)
+		}
+		fake := *bc.NonRevocationWitness
+		fake.U = deg
+		fake.SignedAccumulator = &head
+		bc.NonRevocationWitness = &fake
+		var pd *gabi.ProofD
+		if p := guard(func() { pd, err = bc.CreateDisclosureProof(nil, nil, true, sess.Context, sess.Nonce) }); p != "" || err != nil {
+			r.Probe("byzantine-prover-refused")
+			continue
+		}
+		wb, merr := json.Marshal(gabi.ProofList{pd})
+		if merr != nil {
+			continue
+		}
+		r.Eval(1)
+		v := verifyWire(wb, sess)
+		if v.Accepted {
+			r.Violate("C11:degenerate-commitment-accepted", map[string]any{"fault": id}, "a holder without a valid witness (u = %d*n) obtained acceptance of a non-revocation proof against accumulator %d: C_u is 0 modulo n", di, ra.Head())
+		} else {
+			r.Probe("degenerate-witness-rejected")
+		}
+	}
 	// Byzantine holder: stale (possibly revoked) witness paired with the newest accumulator through a prepared commitment
 	if wanted(s.OnlyFault, "byzantine:stale-witness-new-accumulator") && provedIdx < uint64(ra.Head()) {
 		r.Fault("byzantine-holder")
